@@ -6,7 +6,8 @@ from .c01 import qs
 
 SCOPES = ['top', 'top.a', 'top.a.b', 'top.ab', 'top.g<0>']
 LOCAL = ['x_valid', 'x_ready', 'x_data', 'y_valid', 'y_ready', 'yvalid', 'valid', 'v<1>_valid', 'v<1>_ready', 'xavalid', 'x.valid', 'clk',
-         'load', 'in', 'max', 'm_last', 'first']       # local names that are also names of operators
+         'load', 'in', 'max', 'm_last', 'first',       # local names that are also names of operators
+         'q_valid_q_valid', 'q_valid_q_ready', 'r_ready_valid']    # the suffix text also occurs earlier in the name
 N = 4
 
 
